@@ -24,6 +24,7 @@ type Env struct {
 	C     *ir.Ctx
 	R     *report.Report
 	facts map[*ssa.Function]*ir.FuncFacts
+	groles *GraphRoles
 }
 
 func NewEnv(p *load.Program, r *report.Report) *Env {
